@@ -17,7 +17,7 @@ echo "[$PID] demo WITHOUT patch: exit $(demo)"
 ( cd "$WT" && git apply "$SRC/patch.diff" ) || { echo "[$PID] patch does not apply"; exit 2; }
 echo "[$PID] demo WITH patch: exit $(demo)"
 ( cd "$WT" && go build -overlay=/tmp/ov-chk-$PID.json ./... ) > /tmp/seedchk-$PID.build.log 2>&1; echo "[$PID] build with patch: exit $?"
-rm -rf "$WT/$DEST"
+( cd "$SRC/demo" && find . -type f ) | while read f; do rm -f "$WT/$DEST/$f"; done
 VR=/tmp/vr-seed-$PID; rm -rf $VR; mkdir -p $VR; cp /verif/known_findings.jsonl $VR/
 for P in $PROPS; do
   OUT=$(cd /verif && VERIF_REPO=$WT VERIF_ROOT=$VR ./check $P quick 2>&1)
